@@ -622,7 +622,11 @@ class PDA:
         -------
         * Explain the format
         """
-        pda = PDA()
+        # Every state was exported as a node carrying the two marks, also
+        # the states which have no transition and no mark
+        pda = PDA(states={node for node in graph.nodes
+                          if "is_start" in graph.nodes[node]
+                          and "is_final" in graph.nodes[node]})
         for s_from in graph:
             # The edge from a "starting_" helper node has no label, so it is
             # ignored below; a state can be named like such a node
